@@ -30,6 +30,16 @@ impl Driven for D {
          _ => panic!("verif harness: unknown relation {}", rel),
       }
    }
+   fn clear(&mut self, rel: &str) {
+      match rel {
+         "e_rn" => { self.0.e_rn = Default::default(); },
+         "lt_rn" => { self.0.lt_rn = Default::default(); },
+         "n_rn" => { self.0.n_rn = Default::default(); },
+         "s_rn" => { self.0.s_rn = Default::default(); },
+         "m_rn" => { self.0.m_rn = Default::default(); },
+         _ => panic!("verif harness: unknown relation {}", rel),
+      }
+   }
    fn run(&mut self) { self.0.run(); }
    fn dump(&self) -> Value {
       let mut m: Vec<(String, Value)> = vec![];
